@@ -26,6 +26,11 @@ type c13Case struct {
 	M     uint64   `json:"m"`
 	Items []string `json:"items_hex"`
 	Query []string `json:"query_hex"`
+	// Pre: a query list run through all four methods on the filter BEFORE the queries under test;
+	// Other: a second filter (other key, P, M, built from Pre or two fixed items) is built and queried
+	// with Query in between.  Neither may change what the filter under test answers.
+	Pre   []string `json:"earlier_query_hex,omitempty"`
+	Other bool     `json:"second_filter_in_between,omitempty"`
 }
 
 var c13Keys = [2][16]byte{{}, {0, 1, 2, 3, 4, 5, 6, 7, 8, 9, 10, 11, 12, 13, 14, 15}}
@@ -143,6 +148,49 @@ func c13Eval(w *mc.W, cas c13Case) {
 		members := map[uint64]bool{}
 		for _, it := range items {
 			members[ref.GCSValue(key, n, cas.M, it)] = true
+		}
+		type qm struct {
+			name string
+			f    func([16]byte, [][]byte) (bool, error)
+		}
+		runAll := func(tag string, g *gcs.Filter, k [16]byte, gn uint32, gm uint64, gmembers map[uint64]bool, qs [][]byte) {
+			anyW := false
+			for _, q := range qs {
+				want := gn > 0 && gmembers[ref.GCSValue(k, gn, gm, q)]
+				anyW = anyW || want
+				if got, err := g.Match(k, q); err != nil || got != want {
+					fail("match-differs-from-reference-membership/"+tag, fmt.Sprintf("query %x: got %v (%v) want %v", q, got, err, want))
+				}
+			}
+			for _, m := range []qm{{"MatchAny", g.MatchAny}, {"ZipMatchAny", g.ZipMatchAny}, {"HashMatchAny", g.HashMatchAny}} {
+				if got, err := m.f(k, qs); err != nil || got != anyW {
+					fail("any-of-query-differs-from-individual-matches/"+tag+"/"+m.name, fmt.Sprintf("got %v (%v) want %v", got, err, anyW))
+				}
+			}
+		}
+		if len(cas.Pre) > 0 {
+			var pre [][]byte
+			for _, s := range cas.Pre {
+				pre = append(pre, mc.UnHex(s))
+			}
+			runAll("earlier-query", f, key, n, cas.M, members, pre)
+			if cas.Other {
+				k2 := c13Keys[1-cas.Key]
+				p2, m2 := uint8(19), uint64(784931) // a configuration whose unary runs stay short
+				if cas.P == 19 {
+					p2, m2 = 20, 1<<20
+				}
+				g, err := gcs.BuildGCSFilter(p2, m2, k2, pre)
+				if err != nil {
+					fail("build-fails/second-filter", err.Error())
+					return
+				}
+				gm := map[uint64]bool{}
+				for _, it := range pre {
+					gm[ref.GCSValue(k2, uint32(len(pre)), m2, it)] = true
+				}
+				runAll("second-filter", g, k2, uint32(len(pre)), m2, gm, append(append([][]byte{}, query...), pre...))
+			}
 		}
 		w.Eval()
 		anyWant := false
@@ -303,6 +351,19 @@ func runC13(c *mc.Ctx) {
 							nontriv[len(cases)] = true
 						}
 						cases = append(cases, c13Case{Key: key, P: pm.P, M: pm.M, Items: items, Query: qs})
+						// the same case after earlier queries on the same filter, with and without a second
+						// filter built and queried in between (small sets only)
+						if key == 0 && n >= 1 && n <= 2 && len(q) >= 1 {
+							last := mc.Hex(al.items[len(al.items)-1])
+							for _, pre := range [][]string{{mc.Hex(al.items[0])}, {last, items[0]}, append([]string{qs[len(qs)-1]}, last)} {
+								for _, other := range []bool{false, true} {
+									if sp {
+										nontriv[len(cases)] = true
+									}
+									cases = append(cases, c13Case{Key: key, P: pm.P, M: pm.M, Items: items, Query: qs, Pre: pre, Other: other})
+								}
+							}
+						}
 					}
 				}
 			}
@@ -400,6 +461,23 @@ func runC13(c *mc.Ctx) {
 			}
 		}
 	}
+	// quotient ladder: every unary run length 0..139 in the first and in the second code word
+	ladderSets := 0
+	for _, p := range mc.Pick(c, []uint8{0, 1, 19, 20, 32}, []uint8{0, 1, 2, 7, 8, 16, 19, 20, 24, 30, 31, 32}) {
+		m, sets := c13QuotientLadder(0, p)
+		ladderSets += len(sets)
+		for _, set := range sets {
+			var ih []string
+			for _, it := range set {
+				ih = append(ih, mc.Hex(it))
+			}
+			nontriv[len(cases)] = true
+			cases = append(cases, c13Case{Key: 0, P: p, M: m, Items: ih}) // member sweep through all four methods
+			cases = append(cases, c13Case{Key: 0, P: p, M: m, Items: ih, Query: []string{ih[len(ih)-1], mc.Hex([]byte("zz-nonmember"))}})
+			cases = append(cases, c13Case{Key: 0, P: p, M: m, Items: ih, Query: []string{mc.Hex([]byte("aa-nonmember"))}})
+		}
+	}
+	c.Note("quotient_ladder_sets", ladderSets)
 	c.Note("configurations_with_a_low32_colliding_pair", collisionConfigs)
 	if collisionConfigs == 0 {
 		c.NotExhaustive("no low-32-bit colliding pair found by the scan: the HashMatchAny truncation class is not exercised")
@@ -414,6 +492,55 @@ func runC13(c *mc.Ctx) {
 	})
 	c.Sample("query", cases[len(cases)/3])
 	c.Sample("query", cases[len(cases)-1])
+}
+
+// c13QuotientLadder: for a parameter pair with M = 140 * 2^P (unary quotients up to 139 for one
+// element, 279 for two), one-element sets whose code word has every quotient length 0..139 and
+// two-element sets whose first quotient is 0..7 (eight bit alignments of the second code word) and
+// whose second quotient is 0..139, found by scanning items named "q-<i>".  A writer or reader that
+// treats code words "that fit in a machine word" specially goes wrong at one particular length.
+func c13QuotientLadder(key int, p uint8) (m uint64, sets [][][]byte) {
+	m = 140 << p
+	k := c13Keys[key]
+	const cand = 6000
+	items := make([][]byte, cand)
+	v1 := make([]uint64, cand)
+	v2 := make([]uint64, cand)
+	for i := range items {
+		items[i] = []byte(fmt.Sprintf("q-%d", i))
+		v1[i] = ref.GCSValue(k, 1, m, items[i])
+		v2[i] = ref.GCSValue(k, 2, m, items[i])
+	}
+	seen1 := map[uint64]bool{}
+	for i := range items {
+		if q := v1[i] >> p; q < 140 && !seen1[q] {
+			seen1[q] = true
+			sets = append(sets, [][]byte{items[i]})
+		}
+	}
+	for qa := uint64(0); qa < 8; qa++ {
+		a := -1
+		for i := range items {
+			if v2[i]>>p == qa {
+				a = i
+				break
+			}
+		}
+		if a < 0 {
+			continue
+		}
+		seen2 := map[uint64]bool{}
+		for i := range items {
+			if v2[i] <= v2[a] {
+				continue
+			}
+			if q := (v2[i] - v2[a]) >> p; q < 140 && !seen2[q] {
+				seen2[q] = true
+				sets = append(sets, [][]byte{items[a], items[i]})
+			}
+		}
+	}
+	return
 }
 
 func c13SelfTest() {
